@@ -117,9 +117,22 @@ def eval_op(op: str) -> str:
             key = b"" if a[1] == "-" else bytes.fromhex(a[1])
             msg = b"" if a[2] == "-" else bytes.fromhex(a[2])
             return "ok " + hmac.new(key, msg, hashlib.sha256).hexdigest()
+        if k == "rfc6979_spec":
+            # the Lean specification is validated against the independent Python RFC 6979 of this file
+            return "ok %d" % rfc6979_ref(int(a[1]), int(a[2]), bytes.fromhex(a[3]))
         if k == "rfc6979n":
             from pycoin.ecdsa.rfc6979 import deterministic_generate_k
             return "ok %d" % deterministic_generate_k(int(a[1]), int(a[2]), int(a[3]))
+        if k in ("keysign", "keyverify"):
+            # Key.sign / Key.verify of the BTC network's Key class (secp256k1 generator, DER wrapper)
+            from pycoin.symbols.btc import network as BTC
+            from pycoin.satoshi.der import sigencode_der, sigdecode_der
+            if k == "keysign":
+                key = BTC.keys.private(secret_exponent=int(a[2]))
+                r, s = sigdecode_der(key.sign(int(a[3]).to_bytes(32, "big")), use_broken_open_ssl_mechanism=False)
+                return "ok %d %d" % (r, s)
+            key = BTC.keys.public(parse_pt(a[2]))
+            return "ok %d" % (1 if key.verify(int(a[3]).to_bytes(32, "big"), sigencode_der(int(a[4]), int(a[5]))) else 0)
         g = _generator(a[1])
         if k == "ec_add":
             return "ok " + show_pt(_point(g, a[2]) + _point(g, a[3]))
@@ -133,6 +146,12 @@ def eval_op(op: str) -> str:
         if k == "ec_mul":
             # `int * Point` (Point.__rmul__ -> Curve.multiply of the active class)
             return "ok " + show_pt(int(a[3]) * _point(g, a[2]))
+        if k == "ec_mul_orderless":
+            # the same curve without an order (`Curve(p, a, b)`): the ladder runs on the scalar as given
+            from pycoin.ecdsa.Curve import Curve
+            c0 = Curve(g._p, g._a, g._b)
+            x, y = parse_pt(a[2])
+            return "ok " + show_pt(c0.multiply(c0.Point(x, y), int(a[3])))
         if k == "ec_rawmul":
             return "ok " + show_pt(g.raw_mul(int(a[2])))
         if k == "ec_blindmul":
@@ -221,6 +240,8 @@ def eval_op(op: str) -> str:
 # ------------------------------------------------------------------ worker client (harness side)
 
 _WORKERS: dict = {}
+WORKER_TIMEOUT_S = float(os.environ.get("VERIF_WORKER_TIMEOUT", "60"))
+_TIMEOUTS = 0
 
 
 def _spawn(cfg: str):
@@ -229,29 +250,88 @@ def _spawn(cfg: str):
     if cfg == "pure":
         env["PYCOIN_NATIVE"] = "none"
     p = subprocess.Popen(["/venv/bin/python", os.path.abspath(__file__)], stdin=subprocess.PIPE, stdout=subprocess.PIPE,
-                         env=env, text=True, bufsize=1)
-    hello = p.stdout.readline().strip()
+                         env=env, bufsize=0)
+    w = _Worker(p)
+    hello = w.request("hello", 60.0)
     want = "worker openssl=%d" % (1 if cfg == "openssl" else 0)
     if not hello.startswith(want):
         from lib import Infra
         raise Infra("worker for configuration %s reports %r" % (cfg, hello))
-    return p
+    return w
+
+
+class _Worker:
+    """one request line `@@<id> <op>` -> one answer line `@@<id> <answer>`.  Raw file descriptors, own line buffer, a
+    deadline per request; lines that do not carry the current id (anything pycoin might print) are discarded, so a stray
+    line can neither desynchronise the dialogue nor block it."""
+
+    def __init__(self, proc):
+        self.p = proc
+        self.buf = b""
+        self.seq = 0
+        self.stray: list = []
+
+    def alive(self) -> bool:
+        return self.p.poll() is None
+
+    def kill(self):
+        try:
+            self.p.kill()
+            self.p.wait(timeout=5)
+        except Exception:  # noqa: BLE001
+            pass
+
+    def request(self, op: str, timeout: float) -> str:
+        import select
+        import time
+        self.seq += 1
+        tag = ("@@%d " % self.seq).encode()
+        try:
+            self.p.stdin.write(tag + op.encode() + b"\n")
+            self.p.stdin.flush()
+        except (BrokenPipeError, OSError):
+            return "err WorkerDied"
+        deadline = time.time() + timeout
+        fd = self.p.stdout.fileno()
+        while True:
+            while b"\n" in self.buf:
+                line, self.buf = self.buf.split(b"\n", 1)
+                if line.startswith(tag):
+                    return line[len(tag):].decode(errors="replace")
+                if len(self.stray) < 20:
+                    self.stray.append(line[:200].decode(errors="replace"))
+            left = deadline - time.time()
+            if left <= 0:
+                return "err Timeout"
+            ready, _, _ = select.select([fd], [], [], left)
+            if not ready:
+                return "err Timeout"
+            chunk = os.read(fd, 1 << 16)
+            if not chunk:
+                return "err WorkerDied"
+            self.buf += chunk
 
 
 def call(op: str) -> str:
+    """evaluate one op in the worker of its configuration; always returns one answer (`err Timeout` / `err WorkerDied`
+    when the implementation does not come back), never blocks beyond the deadline"""
+    global _TIMEOUTS
     cfg = op_config(op)
     if cfg not in CONFIGS:
         return "bad-op"
     w = _WORKERS.get(cfg)
-    if w is None or w.poll() is not None:
+    if w is None or not w.alive():
         w = _WORKERS[cfg] = _spawn(cfg)
-    w.stdin.write(op + "\n")
-    w.stdin.flush()
-    ans = w.stdout.readline()
-    if not ans:
-        from lib import Infra
-        raise Infra("worker %s died on %s" % (cfg, op[:200]))
-    return ans.rstrip("\n")
+    ans = w.request(op, WORKER_TIMEOUT_S if _TIMEOUTS < 3 else 5.0)
+    if ans in ("err Timeout", "err WorkerDied"):
+        _TIMEOUTS += 1
+        STRAY.extend(w.stray)
+        w.kill()
+        _WORKERS.pop(cfg, None)
+    return ans
+
+
+STRAY: list = []
 
 
 _CACHE: dict = {}
@@ -268,10 +348,13 @@ def impl(op: str) -> str:
 
 @atexit.register
 def _close():
+    stray = STRAY + [l for w in _WORKERS.values() for l in w.stray]
+    if stray and os.environ.get("VERIF_DEBUG_WORKER"):
+        sys.stderr.write("stray worker lines: %r\n" % stray[:10])
     for w in _WORKERS.values():
         try:
-            w.stdin.close()
-            w.wait(timeout=5)
+            w.p.stdin.close()
+            w.p.wait(timeout=5)
         except Exception:  # noqa: BLE001
             w.kill()
 
@@ -408,17 +491,26 @@ def rfc6979_ref(q: int, x: int, h1: bytes, hashf=hashlib.sha256) -> int:
 # ------------------------------------------------------------------ worker main
 
 def _main():
+    # answers go to a private copy of stdout; fd 1 itself is pointed at stderr so that nothing pycoin (or a library)
+    # prints can enter the dialogue
+    out = os.fdopen(os.dup(1), "w")
+    os.dup2(2, 1)
+    sys.stdout = sys.stderr
     from pycoin.ecdsa.secp256k1 import secp256k1_generator
     from pycoin.ecdsa.native.secp256k1 import libsecp256k1
     has_ossl = any("openssl" in c.__module__ and c.__name__ == "Optimizations" for c in type(secp256k1_generator).__mro__)
-    sys.stdout.write("worker openssl=%d libsecp256k1=%d\n" % (1 if has_ossl else 0, 1 if libsecp256k1 else 0))
-    sys.stdout.flush()
+    hello = "worker openssl=%d libsecp256k1=%d" % (1 if has_ossl else 0, 1 if libsecp256k1 else 0)
     for line in sys.stdin:
         line = line.rstrip("\n")
         if not line:
             continue
-        sys.stdout.write(eval_op(line) + "\n")
-        sys.stdout.flush()
+        tag, _, op = line.partition(" ")
+        try:
+            ans = hello if op == "hello" else eval_op(op)
+        except BaseException as e:  # noqa: BLE001  (a worker never leaves a request unanswered)
+            ans = "err " + type(e).__name__
+        out.write("%s %s\n" % (tag, ans.replace("\n", " ")))
+        out.flush()
 
 
 if __name__ == "__main__":
